@@ -135,6 +135,8 @@ class C15(Prop):
         # it answers to is_finished) and gets the terminal — what the repair e3b3f31 rests on
         "RxModel.GenTie.Subject": [], "RxModel.GenTie.SubjectThreads": [],
         "RxModel.GenTie.Subscriber": [], "RxModel.GenTie.SubscriberThreads": [],
+        # the RAII guard of family `gdrop`: dropping it IS unsubscribing (tie_Guard_drop)
+        "RxModel.GenTie.Subscription": [],
     }
 
     def cases(self, tier, seed):
